@@ -6,7 +6,7 @@ advance is observed publicly.  Oracle: reference arithmetic (string slicing, Fra
 """
 from __future__ import annotations
 
-from mc import docs
+from mc import docs, framing
 from mc.kernel import Tally, case_alarm, chunked, fan_out
 from mc.observe import compare_outcome, parse_one
 from mc.ref.interp import decode_packet
@@ -174,6 +174,65 @@ def _task(task):
     return t
 
 
+def cold_probe():
+    """Subprocess entry (fresh interpreter).  For every configuration the FIRST packet ever decoded with it in this process is one whose field
+    is cut short (the decode may fail or be flagged: not judged); the packets after it are complete and must decode exactly.  Whatever the
+    library memoises per field shape must not be poisoned by a failed decode."""
+    import json
+    import warnings
+    warnings.simplefilter("ignore")
+    cfgs = int_configs("quick") + float_configs()
+    bad, n_ok = [], 0
+    for offset in (0, 3, 5):
+        for ch in chunked(cfgs, 12):
+            variants, metas = [], []
+            for i, cfg in enumerate(ch):
+                pts, prs, ents, tail = docs.framed_field_variant(ptype_for(cfg, i), offset, cfg[1], str(i))
+                variants.append((pts, prs, ents))
+                metas.append(tail)
+            doc = docs.selector_doc(variants)
+            defn = load_doc(doc)
+            for i, cfg in enumerate(ch):
+                fam, w, enc, lsb = cfg
+                pats = [0, (1 << w) - 1, int(("10" * w)[:w], 2), int(("0110" * w)[:w], 2)]
+                first = True
+                for v in pats:
+                    bits = "1" * offset + format(v, f"0{w}b") + "1" * 8 + "1" * metas[i]
+                    pkt = docs.packet_for(i, bits)
+                    if first:
+                        first = False
+                        cut = framing.mk_packet(pkt[6:-2] if len(pkt) > 8 else pkt[6:7], apid=i)   # the field runs past the end
+                        try:
+                            parse_one(defn, cut)
+                        except BaseException:  # noqa: BLE001
+                            pass
+                    why = compare_outcome(decode_packet(doc, pkt), parse_one(defn, pkt))
+                    if why:
+                        bad.append({"cfg": list(cfg), "offset": offset, "packet": pkt.hex(), "why": why[:200]})
+                    else:
+                        n_ok += 1
+    print(json.dumps({"ok": n_ok, "n_bad": len(bad), "bad": bad[:40]}))
+
+
+def _cold_start(t: Tally):
+    import json
+    import os
+    import subprocess
+    import sys
+    from mc import VERIF_ROOT
+    p = subprocess.run([sys.executable, "-c", "from mc.checks.c04 import cold_probe; cold_probe()"], cwd=VERIF_ROOT,
+                       env=dict(os.environ, PYTHONDONTWRITEBYTECODE="1"), capture_output=True, text=True, timeout=1200)
+    if p.returncode != 0:
+        t.violation({"kind": "cold-start-probe-failed"}, {"cold_start": True}, observed=p.stderr[-400:])
+        return
+    res = json.loads(p.stdout.strip().splitlines()[-1])
+    t.evals += res["ok"] + res["n_bad"]
+    t.outcomes["cold-start"] += res["ok"]
+    for b in res["bad"][:10]:
+        t.violation({"kind": "decode-after-failed-decode", "family": b["cfg"][0], "enc": b["cfg"][2]}, {"cold_start": True, **b},
+                    note="in a fresh interpreter, a complete packet decoded after a truncated one of the same configuration is wrong: " + b["why"])
+
+
 def run(ctx):
     icfgs = int_configs(ctx.tier)
     fcfgs = float_configs()
@@ -191,6 +250,7 @@ def run(ctx):
             tasks.append({"cfgs": [cfg], "offset": off, "tier": ctx.tier})
     tasks.sort(key=lambda t: -(t["cfgs"][0][0] == "float") * 10 - len(t["cfgs"]))
     tally = fan_out(_task, tasks, jobs=ctx.jobs, seed=ctx.seed)
+    _cold_start(tally)
     coverage = {
         "programs": tally.programs,
         "exhaustive": True,
@@ -199,7 +259,8 @@ def run(ctx):
                   "neighbour fill {0,1}; floats: binary16 ALL 65536 patterns, binary32/64 every exponent x mantissa family + walking bits + "
                   "specials, MIL-STD-1750A all 256 exponents x ~60 mantissas, both byte orders, also under the deprecated spellings 'MIL-1750A' / 'IEEE-754', "
                   f"offsets {'0,3 for the full sweeps, 0..7 for binary32/64' if ctx.quick else '0..7'}; "
-                  "per configuration and offset, the first two patterns are also decoded twice from one raw packet object of the framer; every other configuration is decoded through copy.deepcopy of the loaded definition"),
+                  "per configuration and offset, the first two patterns are also decoded twice from one raw packet object of the framer; every other configuration is decoded through copy.deepcopy of the loaded definition; "
+                  "in a fresh interpreter, every configuration at offsets 0, 3, 5: a truncated packet first, then complete packets"),
         "rule": ("one evaluation = one packet parsed by the loaded definition and by the reference interpreter; distinct non-trivial = "
                  "distinct (configuration, offset, field bit pattern) triples"),
     }
@@ -209,6 +270,10 @@ def run(ctx):
 
 
 def replay(case):
+    if case.get("cold_start"):
+        t = Tally()
+        _cold_start(t)
+        return next((v for v in t.violations if v["case"].get("packet") == case.get("packet")), None)
     cfg = tuple(case["cfg"])
     offset = case["offset"]
     pt = ptype_for(cfg, 0)
